@@ -1,5 +1,6 @@
 INIT Init
 NEXT Next
 CONSTANT Mode = "disc"
+CONSTANT EmitDepth = 2
 INVARIANT Emit
 CHECK_DEADLOCK FALSE
